@@ -37,6 +37,7 @@ var Prop = &engine.Prop{
 		{Name: "seq-pipe", Quick: 30000, Thorough: 1200000, Fn: seqCase(famQ, famAsync, famMux)},
 		{Name: "seq-mq", Quick: 20000, Thorough: 800000, Fn: seqCase(famMQ)},
 		{Name: "seq-syncq", Quick: 10000, Thorough: 400000, Fn: seqCase(famSync)},
+		{Name: "syncq-nil", Quick: 400, Thorough: 16000, Fn: syncqNilCase},
 		{Name: "seq-priq", Quick: 12000, Thorough: 500000, Fn: seqCase(famPri)},
 		{Name: "lin-pipe", Quick: 3000, Thorough: 90000, Repeat: 20, Fn: linCase(famQ, famAsync, famMux)},
 		{Name: "lin-mq", Quick: 2000, Thorough: 60000, Repeat: 20, Fn: linCase(famMQ)},
